@@ -434,10 +434,10 @@ def large_streams(ctx, quick, add, CNF, OPB):
         plan = [(15, 0, 'consecutive-from-250', ('CNF', 'OPB')), (16, 1, 'mixed', ('CNF',)), (17, 0, 'mixed-large-values', ('CNF',)),
                 (17, 1, 'consecutive', ('CNF',)), (16, 0, 'opposite', ('OPB',)), (17, 1, 'mixed', ('OPB',))]
     else:
-        plan = [(n, c, kind, ('CNF', 'OPB') if n <= 16 else ('CNF',)) for n in (15, 16, 17, 18) for c in (0, 1)
-                for kind in (('consecutive', 'mixed-large-values') if n == 18 else
-                             ('consecutive', 'mixed', 'mixed-large-values', 'repeated', 'opposite'))]
-        plan += [(17, 1, 'mixed', ('OPB',)), (17, 0, 'consecutive-from-250', ('OPB',))]
+        plan = [(n, c, kind, ('CNF', 'OPB') if (n <= 16 and kind in ('consecutive', 'opposite')) else ('CNF',))
+                for n in (15, 16, 17) for c in (0, 1) for kind in ('consecutive', 'mixed-large-values', 'repeated', 'opposite')]
+        plan += [(18, 0, 'consecutive', ('CNF',)), (18, 1, 'mixed-large-values', ('CNF',)),
+                 (17, 1, 'mixed', ('OPB',)), (17, 0, 'consecutive-from-250', ('OPB',))]
     for n, c, kind, classes in plan:
         lits = wide_lits(rng, n, kind)
         cont = 'range' if kind.startswith('consecutive') and c == 1 else ('tuple' if n == 16 else 'list')
@@ -445,8 +445,7 @@ def large_streams(ctx, quick, add, CNF, OPB):
 
     # ---- (b) add_linear on 15..18 literals, every operator; majorities ----
     for n in (15, 16, 17, 18):
-        kinds = ['consecutive', 'mixed-large-values'] if quick else ['consecutive', 'mixed', 'mixed-large-values', 'repeated', 'opposite',
-                                                                      'repeated-large-values']
+        kinds = ['consecutive', 'mixed-large-values'] if quick else ['consecutive', 'mixed-large-values', 'opposite', 'repeated-large-values']
         for kind in kinds:
             lits = wide_lits(rng, n, kind)
             conts = ['list', 'generator'] + (['range'] if kind == 'consecutive' else ['tuple'])
@@ -454,7 +453,7 @@ def large_streams(ctx, quick, add, CNF, OPB):
                 ks = [-1, 0, 1, 2, n - 2, n - 1, n, n + 1]
                 if not quick or (n in (16, 17) and op in ('>=', '<=', '==') and kind == 'consecutive') \
                         or (n == 17 and op in ('!=', '<', '>') and kind != 'consecutive'):
-                    ks += [n // 2] if quick else [3, n // 2, n // 2 + 1, n - 3]
+                    ks += [n // 2] if (quick or kind not in ('consecutive', 'repeated-large-values')) else [3, n // 2, n // 2 + 1, n - 3]
                 for k in ks:
                     cont = conts[(k + n + len(op)) % len(conts)]
                     linear('thresholds-wide', lits, op, k, cont=cont, tag=kind)
@@ -538,7 +537,8 @@ def large_streams(ctx, quick, add, CNF, OPB):
                     continue
                 linear('shapes-values', lits, op, k, cont='range', tag='range-across-256-or-1000')
         for c in (0, 1):
-            parity('shapes-values', lits, c, cont='range', tag='range-across-256-or-1000')
+            if n <= 12:
+                parity('shapes-values', lits, c, cont='range', tag='range-across-256-or-1000')
 
 
 def history_stream(ctx, quick, CNF, OPB):
